@@ -57,3 +57,31 @@ def renaming_cases():
                     f"SymbolicMaths.equal({t1}, {t2}) is {got}; the "
                     f"expressions {'are identical' if same else 'use different variables'}"))
     return out
+
+
+def never_equal_cases():
+    """Pairs of integer expressions for which never_equal must be False under
+    Fortran integer semantics because some valuation makes them equal
+    (ground truth by evaluation with truncating division over a small box).
+    Returns a replay dict."""
+    from psyclone.core import SymbolicMaths
+    sm = SymbolicMaths.get()
+
+    def tdiv(a, b):
+        q = abs(a) // abs(b)
+        return q if (a >= 0) == (b >= 0) else -q
+    pairs = [("n/2", "(n+1)/2", lambda n: (tdiv(n, 2), tdiv(n + 1, 2))),
+             ("n/3", "(n+1)/3", lambda n: (tdiv(n, 3), tdiv(n + 1, 3))),
+             ("(2*n+1)/2", "n", lambda n: (tdiv(2 * n + 1, 2), n))]
+    for t1, t2, ev in pairs:
+        e1, e2 = _exprs(t1, t2)
+        if sm.never_equal(e1, e2):
+            for n in range(-4, 5):
+                v1, v2 = ev(n)
+                if v1 == v2:
+                    return {"confirmed": True,
+                            "input": {"expressions": [t1, t2], "n": n},
+                            "observed": f"never_equal({t1}, {t2}) is True "
+                            f"but for n = {n} both are {v1} in Fortran "
+                            "integer arithmetic"}
+    return {"confirmed": False}
